@@ -59,22 +59,23 @@ def _flatten(stmts):
                 yield from _flatten(c.body)
 
 
-def find_callable(tree: ast.Module, cls: str | None, method: str, nested: str | None, where: str) -> ast.FunctionDef:
+def find_callables(tree: ast.Module, cls: str | None, method: str, nested: str | None, where: str) -> list[ast.FunctionDef]:
+    """every definition of that name (a property's getter and setter share one), in source order"""
     body = tree.body
     if cls is not None:
         c = next((n for n in body if isinstance(n, ast.ClassDef) and n.name == cls), None)
         if c is None:
             raise SiteError(where, f"class {cls} not found")
         body = c.body
-    f = next((n for n in body if isinstance(n, ast.FunctionDef) and n.name == method), None)
-    if f is None:
+    fs = [n for n in body if isinstance(n, ast.FunctionDef) and n.name == method]
+    if not fs:
         raise SiteError(where, f"function {method} not found")
     if nested:
-        g = next((n for n in _flatten(f.body) if isinstance(n, ast.FunctionDef) and n.name == nested), None)
-        if g is None:
+        gs = [g for f in fs for g in _flatten(f.body) if isinstance(g, ast.FunctionDef) and g.name == nested]
+        if not gs:
             raise SiteError(where, f"nested function {nested} not found")
-        f = g
-    return f
+        fs = gs
+    return fs
 
 
 def _peel(node: ast.expr, peel, where: str) -> ast.expr:
@@ -122,14 +123,16 @@ class _Rename(ast.NodeTransformer):
 def build(src: str, name: str, site: dict, where: str) -> tuple[ast.FunctionDef, str]:
     """synthetic `def <name>(<params>): return <site expression>` + the source text it came from"""
     tree = ast.parse(src)
-    f = find_callable(tree, site.get("cls"), site["method"], site.get("nested"), where)
     target, nth = site["target"], site.get("nth", 0)
     found = []
-    for s in _flatten(f.body):
-        if target == "return" and isinstance(s, ast.Return) and s.value is not None:
-            found.append((s, s.value))
-        elif isinstance(s, ast.Assign) and len(s.targets) == 1 and ast.unparse(s.targets[0]) == target:
-            found.append((s, s.value))
+    for f in find_callables(tree, site.get("cls"), site["method"], site.get("nested"), where):
+        for s in _flatten(f.body):
+            if target == "return" and isinstance(s, ast.Return) and s.value is not None:
+                found.append((s, s.value))
+            elif isinstance(s, ast.Assign) and len(s.targets) == 1 and ast.unparse(s.targets[0]) == target:
+                found.append((s, s.value))
+        if found and not site.get("all_defs"):
+            break
     if len(found) <= nth:
         raise SiteError(where, f"assignment #{nth} to `{target}` not found ({len(found)} found)")
     stmt, rhs = found[nth]
